@@ -1970,13 +1970,25 @@ func deserialize_vector_u64(deserializer serde.Deserializer) ([]uint64, error) {
 	if err != nil {
 		return nil, err
 	}
-	obj := make([]uint64, length)
-	for i := range obj {
+	// length comes from the input: grow the slice as elements are actually read
+	// instead of allocating for a length that the input may not hold.
+	obj := make([]uint64, 0, minUint64(length, maxPreallocatedElements))
+	for i := uint64(0); i < length; i++ {
 		if val, err := deserializer.DeserializeU64(); err == nil {
-			obj[i] = val
+			obj = append(obj, val)
 		} else {
 			return nil, err
 		}
 	}
 	return obj, nil
+}
+
+// maxPreallocatedElements bounds the capacity reserved for a vector before its elements were read.
+const maxPreallocatedElements = 1024
+
+func minUint64(a, b uint64) uint64 {
+	if a < b {
+		return a
+	}
+	return b
 }
